@@ -461,7 +461,10 @@ func (s *sdRun) compactAndCheck(op SDOp) (int, error) {
 	}
 	stats, err := worker.VerifCompactSync(op.DS, op.Reader)
 	if err != nil {
-		return 0, err
+		// a compaction that gives up with an error is not a violation of C12 by itself (the statement is about
+		// what readers see); whatever it flushed before giving up must still be invisible, so carry on judging
+		s.ctx.Out.Stat("c12_compactions_failed", 1)
+		s.ctx.Out.Emit(map[string]any{"t": "note", "case": s.id, "note": "compaction returned error: " + err.Error()})
 	}
 	s.ctx.Out.Stat("c12_compactions", 1)
 	for k, v := range stats {
